@@ -62,6 +62,8 @@ fn main() {
         #[cfg(feature = "full")]
         "c04" => c04::run(&cfg),
         #[cfg(feature = "full")]
+        "c07-agent" => c04::run_c07_agent(&cfg),
+        #[cfg(feature = "full")]
         "c15" => e2e2::run_c15(&cfg),
         #[cfg(feature = "full")]
         "c19" => e2e2::run_c19(&cfg),
